@@ -158,3 +158,110 @@ func hashList(r *rand.Rand, hsz, max int, dup bool) []plumbing.Hash {
 	}
 	return out
 }
+
+// poolLists draws k id lists from ONE small pool of ids so that the lists
+// overlap: identical sets, a single shared id, chains where max(list i) ==
+// min(list i+1), or random subsets with duplicates inside a list.
+// Real clients produce exactly these relations (a shallow client deepening
+// its own unchanged tip wants and is shallow at the same commit; a have that
+// is also a want; a commit that is unshallowed while its parent becomes shallow).
+func poolLists(r *rand.Rand, hsz, k int) [][]plumbing.Hash {
+	pool := make([]plumbing.Hash, 0, 5)
+	seen := map[string]bool{}
+	for len(pool) < 5 {
+		h := rhash(r, hsz)
+		if !seen[h.String()] {
+			seen[h.String()] = true
+			pool = append(pool, h)
+		}
+	}
+	plumbing.HashesSort(pool)
+	out := make([][]plumbing.Hash, k)
+	switch r.Intn(5) {
+	case 0: // every list is the same single id
+		x := pool[r.Intn(len(pool))]
+		for i := range out {
+			out[i] = []plumbing.Hash{x}
+		}
+	case 1: // identical sets of 2..3 ids (order shuffled per list)
+		n := 2 + r.Intn(2)
+		for i := range out {
+			l := append([]plumbing.Hash{}, pool[:n]...)
+			r.Shuffle(len(l), func(a, b int) { l[a], l[b] = l[b], l[a] })
+			out[i] = l
+		}
+	case 2: // chain: max(list i) == min(list i+1)
+		for i := range out {
+			lo := i % (len(pool) - 1)
+			out[i] = []plumbing.Hash{pool[lo+1], pool[lo]}
+			if i == 0 && r.Intn(2) == 0 {
+				out[i] = []plumbing.Hash{pool[lo+1]} // the shared id is the only member of the first list
+			}
+		}
+	case 3: // the largest id of the first list is the only id of the others
+		out[0] = []plumbing.Hash{pool[0], pool[2]}
+		for i := 1; i < k; i++ {
+			out[i] = []plumbing.Hash{pool[2]}
+		}
+	default: // random non-empty subsets of three ids, possibly with duplicates inside a list
+		for i := range out {
+			n := 1 + r.Intn(3)
+			for j := 0; j < n; j++ {
+				out[i] = append(out[i], pool[r.Intn(3)])
+			}
+		}
+	}
+	return out
+}
+
+// relations names how the id lists relate to each other (for shapes, floors and finding keys).
+func relations(names []string, lists [][]plumbing.Hash) []string {
+	var out []string
+	sets := make([][]string, len(lists))
+	for i, l := range lists {
+		sets[i] = sortedHex(l)
+		if len(sets[i]) < len(l) {
+			out = append(out, "dup("+names[i]+")")
+		}
+	}
+	for i := range lists {
+		for j := i + 1; j < len(lists); j++ {
+			if len(sets[i]) == 0 || len(sets[j]) == 0 {
+				continue
+			}
+			inter := false
+			in := map[string]bool{}
+			for _, x := range sets[i] {
+				in[x] = true
+			}
+			for _, x := range sets[j] {
+				if in[x] {
+					inter = true
+				}
+			}
+			if !inter {
+				continue
+			}
+			out = append(out, names[i]+"&"+names[j])
+			if strings.Join(sets[i], ",") == strings.Join(sets[j], ",") {
+				out = append(out, names[i]+"="+names[j])
+			}
+			if sets[i][len(sets[i])-1] == sets[j][0] {
+				out = append(out, "max("+names[i]+")=min("+names[j]+")")
+			}
+			if sets[j][len(sets[j])-1] == sets[i][0] {
+				out = append(out, "max("+names[j]+")=min("+names[i]+")")
+			}
+		}
+	}
+	return out
+}
+
+// perturb returns an id that differs from h in its last byte (used to undo an overlap).
+func perturb(h plumbing.Hash, k int) plumbing.Hash {
+	b := append([]byte{}, h.Bytes()...)
+	b[len(b)-1] ^= byte(0x40 + k)
+	b[len(b)-2] ^= 0x15
+	n, _ := plumbing.FromBytes(b)
+	return n
+}
